@@ -11,9 +11,11 @@ is: row valid (here) + traversal theorem (SqiModel.Strategy, C09/C12).
 -/
 import SqiModel.Strategy
 import SqiModel.Mat2
+import SqiModel.Fp2N
 import SqiGen.Tables1
 import SqiGen.Tables3
 import SqiGen.Tables5
+import SqiProofs.Primes
 
 set_option maxRecDepth 100000
 
@@ -90,6 +92,22 @@ theorem L1_action_dets :
 example : ∃ s pad, Strat (D_POWER_OF_2 - 0) s ∧ strategies[0]! = s ++ pad :=
   let ⟨s, pad, h1, h2, _, _⟩ := rowsValid_sound L1_strategies_rows 0 (by decide +kernel)
   ⟨s, pad, h1, by rw [← h2]; rfl⟩
+
+/-- the base curve is y² = x³ + x: (A : C) = (0 : c), c ≠ 0 -/
+theorem L1_curve_E0 : Fp2N.isZero FP_p W64.CURVE_E0.1 = true ∧ Fp2N.isZero FP_p W64.CURVE_E0.2 = false := by decide +kernel
+/-- the precomputed 2^f-torsion basis of E0: P, Q (and the stored third point) have exact order 2^f under the
+    verified doubling formula, and [2^(f-1)]P ≠ [2^(f-1)]Q, so P and Q generate E0[2^f] -/
+theorem L1_basis_even_orders :
+    W64.BASIS_EVEN.length = 3 ∧
+    W64.BASIS_EVEN.all (fun P => Fp2N.exactOrder2f FP_p W64.CURVE_E0.1 W64.CURVE_E0.2 D_POWER_OF_2 P) = true ∧
+    Fp2N.projEq FP_p (Fp2N.xDBLiter FP_p W64.CURVE_E0.1 W64.CURVE_E0.2 (D_POWER_OF_2 - 1) (W64.BASIS_EVEN[0]!))
+                     (Fp2N.xDBLiter FP_p W64.CURVE_E0.1 W64.CURVE_E0.2 (D_POWER_OF_2 - 1) (W64.BASIS_EVEN[1]!)) = false := by
+  decide +kernel
+/-- the 20 table entries used as x-coordinates of points not above (0,0) are non-squares in GF(p²) -/
+theorem L1_nqr_table : W64.NQR_TABLE.length = 20 ∧ W64.NQR_TABLE.all (fun x => !Fp2N.isSquare FP_p x) = true := by decide +kernel
+/-- the 20 entries z used for points above (0,0): z is a square and z − 1 is not (entries and 1 in Montgomery form) -/
+theorem L1_z_nqr_table : W64.Z_NQR_TABLE.length = 20 ∧
+    W64.Z_NQR_TABLE.all (fun z => Fp2N.isSquare FP_p z && !Fp2N.isSquare FP_p (Fp2N.sub FP_p z (FP_ONE, 0))) = true := by decide +kernel
 end L1
 
 /-! ## level 3 -/
@@ -143,6 +161,22 @@ theorem L3_action_dets :
 example : ∃ s pad, Strat (D_POWER_OF_2 - 0) s ∧ strategies[0]! = s ++ pad :=
   let ⟨s, pad, h1, h2, _, _⟩ := rowsValid_sound L3_strategies_rows 0 (by decide +kernel)
   ⟨s, pad, h1, by rw [← h2]; rfl⟩
+
+/-- the base curve is y² = x³ + x: (A : C) = (0 : c), c ≠ 0 -/
+theorem L3_curve_E0 : Fp2N.isZero FP_p W64.CURVE_E0.1 = true ∧ Fp2N.isZero FP_p W64.CURVE_E0.2 = false := by decide +kernel
+/-- the precomputed 2^f-torsion basis of E0: P, Q (and the stored third point) have exact order 2^f under the
+    verified doubling formula, and [2^(f-1)]P ≠ [2^(f-1)]Q, so P and Q generate E0[2^f] -/
+theorem L3_basis_even_orders :
+    W64.BASIS_EVEN.length = 3 ∧
+    W64.BASIS_EVEN.all (fun P => Fp2N.exactOrder2f FP_p W64.CURVE_E0.1 W64.CURVE_E0.2 D_POWER_OF_2 P) = true ∧
+    Fp2N.projEq FP_p (Fp2N.xDBLiter FP_p W64.CURVE_E0.1 W64.CURVE_E0.2 (D_POWER_OF_2 - 1) (W64.BASIS_EVEN[0]!))
+                     (Fp2N.xDBLiter FP_p W64.CURVE_E0.1 W64.CURVE_E0.2 (D_POWER_OF_2 - 1) (W64.BASIS_EVEN[1]!)) = false := by
+  decide +kernel
+/-- the 20 table entries used as x-coordinates of points not above (0,0) are non-squares in GF(p²) -/
+theorem L3_nqr_table : W64.NQR_TABLE.length = 20 ∧ W64.NQR_TABLE.all (fun x => !Fp2N.isSquare FP_p x) = true := by decide +kernel
+/-- the 20 entries z used for points above (0,0): z is a square and z − 1 is not (entries and 1 in Montgomery form) -/
+theorem L3_z_nqr_table : W64.Z_NQR_TABLE.length = 20 ∧
+    W64.Z_NQR_TABLE.all (fun z => Fp2N.isSquare FP_p z && !Fp2N.isSquare FP_p (Fp2N.sub FP_p z (FP_ONE, 0))) = true := by decide +kernel
 end L3
 
 /-! ## level 5 -/
@@ -196,5 +230,26 @@ theorem L5_action_dets :
 example : ∃ s pad, Strat (D_POWER_OF_2 - 0) s ∧ strategies[0]! = s ++ pad :=
   let ⟨s, pad, h1, h2, _, _⟩ := rowsValid_sound L5_strategies_rows 0 (by decide +kernel)
   ⟨s, pad, h1, by rw [← h2]; rfl⟩
+
+/-- the base curve is y² = x³ + x: (A : C) = (0 : c), c ≠ 0 -/
+theorem L5_curve_E0 : Fp2N.isZero FP_p W64.CURVE_E0.1 = true ∧ Fp2N.isZero FP_p W64.CURVE_E0.2 = false := by decide +kernel
+/-- the precomputed 2^f-torsion basis of E0: P, Q (and the stored third point) have exact order 2^f under the
+    verified doubling formula, and [2^(f-1)]P ≠ [2^(f-1)]Q, so P and Q generate E0[2^f] -/
+theorem L5_basis_even_orders :
+    W64.BASIS_EVEN.length = 3 ∧
+    W64.BASIS_EVEN.all (fun P => Fp2N.exactOrder2f FP_p W64.CURVE_E0.1 W64.CURVE_E0.2 D_POWER_OF_2 P) = true ∧
+    Fp2N.projEq FP_p (Fp2N.xDBLiter FP_p W64.CURVE_E0.1 W64.CURVE_E0.2 (D_POWER_OF_2 - 1) (W64.BASIS_EVEN[0]!))
+                     (Fp2N.xDBLiter FP_p W64.CURVE_E0.1 W64.CURVE_E0.2 (D_POWER_OF_2 - 1) (W64.BASIS_EVEN[1]!)) = false := by
+  decide +kernel
+/-- the 20 table entries used as x-coordinates of points not above (0,0) are non-squares in GF(p²) -/
+theorem L5_nqr_table : W64.NQR_TABLE.length = 20 ∧ W64.NQR_TABLE.all (fun x => !Fp2N.isSquare FP_p x) = true := by decide +kernel
+/-- the 20 entries z used for points above (0,0): z is a square and z − 1 is not (entries and 1 in Montgomery form) -/
+theorem L5_z_nqr_table : W64.Z_NQR_TABLE.length = 20 ∧
+    W64.Z_NQR_TABLE.all (fun z => Fp2N.isSquare FP_p z && !Fp2N.isSquare FP_p (Fp2N.sub FP_p z (FP_ONE, 0))) = true := by decide +kernel
 end L5
+/-! ## the characteristics are prime (N+1 certificate checked by the kernel, see SqiProofs.Primality) -/
+theorem L1_characteristic_prime : Nat.Prime SqiGen.L1.FP_p := SqiProofs.Primes.L1_prime
+theorem L3_characteristic_prime : Nat.Prime SqiGen.L3.FP_p := SqiProofs.Primes.L3_prime
+theorem L5_characteristic_prime : Nat.Prime SqiGen.L5.FP_p := SqiProofs.Primes.L5_prime
+
 end SqiProps.C18
